@@ -262,10 +262,19 @@ pub fn gen_instance(t: &mut Tape, cfg: &InstCfg, ctx: &mut Ctx) -> GI {
     let n_act = t.choice(cfg.max_active + 1);
     let n_rem = t.choice(cfg.max_removed + 1);
     let mut cids: Vec<u64> = Vec::new();
-    let mut next = *t.pick(&[0u64, 1, 10, 1 << 33]);
-    for _ in 0..(n_act + n_rem) {
-        cids.push(next);
-        next += 1 + t.choice(4) as u64 * t.choice(4) as u64;
+    let mut next = *t.pick(&[0u64, 1, 10, 1 << 33, u64::MAX]);
+    if next == u64::MAX && n_act + n_rem > 0 {
+        // ids counted down from the largest id there is
+        ctx.label("constraint-id=u64::MAX");
+        for _ in 0..(n_act + n_rem) {
+            cids.push(next);
+            next -= 1 + t.choice(3) as u64;
+        }
+    } else {
+        for _ in 0..(n_act + n_rem) {
+            cids.push(next);
+            next += 1 + t.choice(4) as u64 * t.choice(4) as u64;
+        }
     }
     t.shuffle(&mut cids);
     for i in 0..n_act {
